@@ -1,6 +1,20 @@
 """Regeneration of everything derived from /repo's working tree (ties T-obs and T-gen)."""
+import os
 from lib import common
+from lib.common import Broken
+
+
+def dump_tables():
+    out = os.path.join(common.GEN, "Obs.v")
+    rc, o = common.sh([common.GVGEN, "dump", common.REPO, out], timeout=300)
+    if rc != 0:
+        raise Broken("gvgen dump failed: the observation tables cannot be regenerated from /repo", o[-3000:])
 
 
 def regenerate_all():
-    pass
+    dump_tables()
+    try:
+        from lib import blegen
+        blegen.translate()
+    except ImportError:
+        pass
